@@ -170,6 +170,52 @@ def run_schedule(seed, window, nlabels, fault_rate, cancels):
         L.d.close()
 
 
+def run_assignment(window, n_nsub, n_hsub, assign_n2h, assign_h2n):
+    """small scope: fixed submissions, then the k-th frame delivered on each line gets the k-th action of its
+    assignment (deliver afterwards); timeouts fire whenever nothing is in flight"""
+    L = Link(window, None)
+    try:
+        for _ in range(n_nsub):
+            L.ncp_submit()
+        for _ in range(n_hsub):
+            L.host_submit()
+        kn = kh = 0
+        for _ in range(300):
+            if L.n2h:
+                act = assign_n2h[kn] if kn < len(assign_n2h) else "deliver"
+                kn += 1
+                L.n2h_step(act)
+                if act == "dup":
+                    L.n2h_step("deliver")
+            elif L.h2n:
+                act = assign_h2n[kh] if kh < len(assign_h2n) else "deliver"
+                kh += 1
+                L.h2n_step(act)
+                if act == "dup":
+                    L.h2n_step("deliver")
+            elif L.d.proto._ncp_state.name == "FAILED":
+                break
+            elif L.d.outstanding() and L.d.loop.next_deadline() is not None:
+                L.host_timeout()
+            elif L.ncp.unacked:
+                L.ncp_timeout()
+            else:
+                break
+        d = L.d
+        dones = {}
+        for e in d.rec.log:
+            if e[0] == "done":
+                dones[e[1]] = e[2]
+        return {"host_up": [e[1].hex() for e in d.rec.log if e[0] == "up"], "ncp_up": [p.hex() for p in L.ncp_up],
+                "host_subm": [[i, p.hex()] for i, p in L.host_subm], "ncp_subm": [p.hex() for p in L.ncp_subm],
+                "dones": {str(k): v for k, v in dones.items()}, "failed": d.proto._ncp_state.name == "FAILED",
+                "ncp_acked_all": not L.ncp.unacked and not L.ncp.queue}
+    except BaseException as e:  # noqa
+        return {"crash": repr(e)}
+    finally:
+        L.d.close()
+
+
 def _apply(L, lab, rng):
     k = lab[0]
     if k == "hsub":
@@ -235,9 +281,6 @@ class Check(PropertyCheck):
             steps.append([e for e in st if not (e[0] == "w" and e[1] == "cnak")])
         return c05.enc_steps(steps) + obs["final"]
 
-    def extra_checks(self, rep, tier, rng):
-        rep.cov["run_statistics"] = dict(getattr(self, "stats", {}))
-
     def monitor(self, case, obs):
         if "crash" in obs:
             return f"raised {obs['crash']}"
@@ -267,6 +310,54 @@ class Check(PropertyCheck):
             if out == [0] and obs["ncp_up"].count(pl[i]) != 1:
                 return f"send {i} completed successfully but its payload was delivered {obs['ncp_up'].count(pl[i])} times"
         return None
+
+    def judge(self, obs):
+        """end-to-end clauses on a small-scope run (same as monitor, plus: what the NCP believes acknowledged
+        must have been handed up on the host side)"""
+        if "crash" in obs:
+            return f"raised {obs['crash']}"
+        hs = [p for _, p in obs["host_subm"]]
+        if len(set(obs["ncp_up"])) != len(obs["ncp_up"]) or len(set(obs["host_up"])) != len(obs["host_up"]):
+            return "a payload was handed up twice"
+        if not is_subsequence(obs["ncp_up"], hs) or obs["ncp_up"] != hs[:len(obs["ncp_up"])]:
+            return "NCP-side deliveries are not an in-order prefix of what the host submitted"
+        if obs["host_up"] != obs["ncp_subm"][:len(obs["host_up"])]:
+            return f"host-side deliveries {obs['host_up']} are not an in-order prefix of what the NCP submitted {obs['ncp_subm']}"
+        if obs.get("ncp_acked_all") and not obs["failed"] and len(obs["host_up"]) != len(obs["ncp_subm"]):
+            return (f"the NCP's sends all completed (acknowledged) but only {len(obs['host_up'])} of {len(obs['ncp_subm'])} "
+                    f"payloads were handed up on the host side")
+        pl = dict((str(i), p) for i, p in obs["host_subm"])
+        for i, out in obs["dones"].items():
+            if out == [0] and obs["ncp_up"].count(pl[i]) != 1:
+                return f"host send {i} completed successfully but its payload was delivered {obs['ncp_up'].count(pl[i])} times"
+        return None
+
+    def small_scopes(self, rep, depth):
+        import itertools
+        acts = ["deliver", "drop", "corrupt", "dup"]
+        n = 0
+        for window in (1, 2, 3):
+            for a in itertools.product(acts, repeat=depth):
+                if all(x == "deliver" for x in a):
+                    continue
+                for direction in ("n2h", "h2n"):
+                    obs = run_assignment(window, 3, 2, a if direction == "n2h" else (), a if direction == "h2n" else ())
+                    n += 1
+                    why = self.judge(obs)
+                    if why:
+                        rep.violation({"input": {"window": window, "ncp_submits": 3, "host_submits": 2, "faulty_line": direction,
+                                                 "assignment": list(a)},
+                                       "observed": obs, "required": why,
+                                       "how": "exhaustive fault assignment on a small scenario, judged end to end"},
+                                      found_input=True, signature="link:" + why[:50])
+                        return n
+        return n
+
+    def extra_checks(self, rep, tier, rng):
+        rep.cov["run_statistics"] = dict(getattr(self, "stats", {}))
+        depth = 4 if tier == "quick" else 6
+        rep.cov["small_scope_fault_assignments"] = self.small_scopes(rep, depth)
+        rep.cov["small_scope_depth"] = depth
 
     def nontrivial(self, case, obs):
         return case["fault"] > 0
